@@ -51,17 +51,12 @@ func runC19(c *core.Ctx) {
 			}
 			sorted := call.Call.Args[0]
 			less := core.Resolve(call.Call.Args[1])
-			mc, isMC := less.(*ssa.MakeClosure)
-			if !isMC {
-				// the user's own index comparator passed through (SortByIndex)
-				if _, isParam := less.(*ssa.Parameter); isParam {
-					c.Pass("R1", key, p.InstrPos(ins), "stable sort with the caller's index comparator")
-				} else {
-					c.Fail("R1", key, p.InstrPos(ins), "less function is neither a library-built closure nor the caller's comparator")
-				}
+			// the user's own index comparator passed through (SortByIndex)
+			if _, isParam := less.(*ssa.Parameter); isParam {
+				c.Pass("R1", key, p.InstrPos(ins), "stable sort with the caller's index comparator")
 				return
 			}
-			ok2, detail := c19less(f, mc, core.Unwrap(sorted))
+			ok2, detail := c19less(p, f, less, core.Unwrap(sorted))
 			c.Check(ok2, "R1", key, p.InstrPos(ins), detail, detail)
 		})
 	}
@@ -133,22 +128,43 @@ func runC19(c *core.Ctx) {
 		c.Check(reach, "R1", d.name+"/delegates", p.Pos(d.fn.Pos()), "reaches fpgo.Sort (the single stable sort)", d.name+" no longer sorts through fpgo.Sort")
 	}
 	// ---- R2: SortOrdered closures
-	if so := p.Func(p.Fpgo, "SortOrdered"); so == nil || len(so.AnonFuncs) != 2 {
-		c.Unknown("R2", "SortOrdered", "-", "function or its two comparator closures not found")
+	if so := p.Func(p.Fpgo, "SortOrdered"); so == nil || sortFn == nil {
+		c.Unknown("R2", "SortOrdered", "-", "function not found")
 	} else {
-		// which closure is used on the ascending edge?
-		for _, cl := range so.AnonFuncs {
-			var mc ssa.Instruction
-			core.Instrs(so, func(ins ssa.Instruction) {
-				if x, ok := ins.(*ssa.MakeClosure); ok && x.Fn == ssa.Value(cl) {
-					mc = x
+		// the comparators: the function values SortOrdered hands to Sort (closures, named functions, ...)
+		type cmpUse struct {
+			cl *ssa.Function
+			at ssa.Instruction
+		}
+		var uses []cmpUse
+		core.InstrsGroup(p, so, func(_ *ssa.Function, ins ssa.Instruction) {
+			if call, ok := ins.(*ssa.Call); ok && core.Callee(&call.Call) == sortFn && len(call.Call.Args) == 2 {
+				arg := call.Call.Args[0]
+				var cands []ssa.Value
+				if phi, isPhi := core.Resolve(arg).(*ssa.Phi); isPhi {
+					// `comparator := asc ? f : g` then one call of Sort
+					for i, e := range phi.Edges {
+						if fv := core.ResolveFuncValue(p, e); fv != nil {
+							last := phi.Block().Preds[i].Instrs[len(phi.Block().Preds[i].Instrs)-1]
+							uses = append(uses, cmpUse{fv.Fn, last})
+						}
+					}
+					return
 				}
-				for _, op := range ins.Operands(nil) {
-					if *op == ssa.Value(cl) {
-						mc = ins
+				cands = append(cands, arg)
+				for _, a := range cands {
+					if fv := core.ResolveFuncValue(p, a); fv != nil {
+						uses = append(uses, cmpUse{fv.Fn, ins})
 					}
 				}
-			})
+			}
+		})
+		if len(uses) != 2 {
+			c.Unknown("R2", "SortOrdered", p.Pos(so.Pos()), fmt.Sprintf("expected two comparators handed to Sort (ascending / descending), found %d", len(uses)))
+		}
+		for _, u := range uses {
+			cl := u.cl
+			mc := u.at
 			asc, known := false, false
 			if mc != nil {
 				for _, cnd := range core.EdgeFacts(mc.Block()) {
@@ -331,15 +347,21 @@ func runC19(c *core.Ctx) {
 }
 
 // c19less: closure(i, j) returns fn(input[i], input[j]) with input the sorted slice.
-func c19less(parent *ssa.Function, mc *ssa.MakeClosure, sorted ssa.Value) (bool, string) {
-	cl := mc.Fn.(*ssa.Function)
-	if len(cl.Params) != 2 {
-		return false, "less closure does not take two indices"
+func c19less(p *core.Prog, parent *ssa.Function, less ssa.Value, sorted ssa.Value) (bool, string) {
+	fv := core.ResolveFuncValue(p, less)
+	if fv == nil {
+		return false, "less function is neither a library-built function value nor the caller's comparator"
 	}
+	cl := fv.Fn
+	np := len(cl.Params)
+	if np < 2 {
+		return false, "less function does not take two indices"
+	}
+	pi, pj := cl.Params[np-2], cl.Params[np-1]
 	var call *ssa.Call
 	core.Instrs(cl, func(ins ssa.Instruction) {
 		if r, ok := ins.(*ssa.Return); ok {
-			if x, isC := core.RetVals(r)[0].(*ssa.Call); isC {
+			if x, isC := core.Resolve(core.RetVals(r)[0]).(*ssa.Call); isC {
 				call = x
 			}
 		}
@@ -356,16 +378,14 @@ func c19less(parent *ssa.Function, mc *ssa.MakeClosure, sorted ssa.Value) (bool,
 		if !ok || ia.Index != ssa.Value(idx) {
 			return false
 		}
-		// the indexed slice is the captured variable that holds the sorted slice
-		name := core.Path(ia.X)
-		b := capturedBinding(parent, cl, name)
-		return b != nil && b == core.Resolve(sorted)
+		// the indexed slice is the one handed to sort.SliceStable (captured variable / field of the bound receiver)
+		return fv.Outer(ia.X) == core.Resolve(sorted)
 	}
-	if !elem(call.Call.Args[0], cl.Params[0]) || !elem(call.Call.Args[1], cl.Params[1]) {
+	if !elem(call.Call.Args[0], pi) || !elem(call.Call.Args[1], pj) {
 		return false, "less does not compare (sorted[i], sorted[j]) of the slice handed to sort.SliceStable in that order: it indexes another slice or swaps the arguments"
 	}
-	// the comparator is the captured fn parameter
-	if b := capturedBinding(parent, cl, core.Path(call.Call.Value)); b == nil {
+	// the comparator is the fn parameter of the sorting function
+	if prm, isP := fv.Outer(call.Call.Value).(*ssa.Parameter); !isP || prm.Parent() != parent {
 		return false, "the comparator called is not the one given to Sort"
 	}
 	return true, "sort.SliceStable(input, func(i, j) { return fn(input[i], input[j]) })"
